@@ -183,6 +183,33 @@ pub fn gen_chain(r: &mut Rng, n: usize) -> (Value, Vec<TPath>) {
     (claims, marks)
 }
 
+/// Replaces some scalar leaves by arbitrary finite doubles (17 significant digits, large and tiny exponents): a JSON
+/// number has to come back as the same number - in clear members, inside disclosures and in array elements.
+pub fn plant_doubles(r: &mut Rng, claims: &mut Value) {
+    fn go(r: &mut Rng, v: &mut Value) {
+        match v {
+            Value::Object(m) => m.values_mut().for_each(|c| go(r, c)),
+            Value::Array(a) => a.iter_mut().for_each(|c| go(r, c)),
+            _ => {
+                if r.chance(1, 3) {
+                    let f = loop {
+                        let f = f64::from_bits(r.next());
+                        if f.is_finite() {
+                            break f;
+                        }
+                    };
+                    *v = json!(f);
+                }
+            }
+        }
+    }
+    go(r, claims);
+    if let Value::Object(m) = claims {
+        let f = f64::from_bits(r.next() & 0x7fef_ffff_ffff_ffff);
+        m.insert("dbl".to_string(), json!(f));
+    }
+}
+
 /// claims and a non-empty marking: usually a small random document, every 40th case a deep chain of recursive
 /// disclosures (9 to 14 levels)
 pub fn claims_and_marking(r: &mut Rng, i: usize, depth: u32, width: usize) -> (Value, Vec<TPath>) {
@@ -190,7 +217,10 @@ pub fn claims_and_marking(r: &mut Rng, i: usize, depth: u32, width: usize) -> (V
         let levels = 9 + r.below(6);
         gen_chain(r, levels)
     } else {
-        let claims = gen_object(r, depth, width, 1);
+        let mut claims = gen_object(r, depth, width, 1);
+        if r.chance(1, 5) {
+            plant_doubles(r, &mut claims);
+        }
         let marks = gen_marking(r, &claims, true);
         (claims, marks)
     }
